@@ -6,56 +6,66 @@ Local Open Scope Z_scope.
 
 (* ---- sanitiseZipExtractPath ---- *)
 
-Lemma dotdot_test_false_split cv d r :
-  dotdot_test cv (d ++ slash :: r) = false -> Forall (fun c => c <> dotdot) (split r).
+Lemma dd_shape_false_split sh d r : dd_present sh = true ->
+  dd_shape_test sh (d ++ slash :: r) = false -> Forall (fun c => c <> dotdot) (split r).
 Proof.
-  intros H. apply Forall_forall. intros c Hc ->. destruct cv; simpl in H.
-  - unfold has_dotdot_elem in H. rewrite split_app_slash, existsb_app in H.
-    apply orb_false_iff in H as [_ H].
-    assert (existsb is_dotdot (split r) = true) as E; [|congruence].
-    apply existsb_exists. exists dotdot. split; [assumption | apply beqb_refl].
+  intros Hsh H. apply Forall_forall. intros c Hc ->. destruct sh; cbv beta iota delta [dd_shape_test] in H; [| | |discriminate Hsh].
   - destruct (split_In_sub _ _ Hc) as (x & y & ->).
     replace (d ++ slash :: x ++ dotdot ++ y) with ((d ++ slash :: x) ++ dotdot ++ y) in H
       by (rewrite <- app_assoc; reflexivity).
     rewrite contains_app in H. discriminate.
+  - rewrite split_app_slash, existsb_app in H. apply orb_false_iff in H as [_ H].
+    assert (existsb is_dotdot (split r) = true) as E; [|congruence].
+    apply existsb_exists. exists dotdot. split; [assumption | apply beqb_refl].
+  - rewrite split_app_slash, existsb_app in H. apply orb_false_iff in H as [_ H].
+    assert (existsb (has_prefix dotdot) (split r) = true) as E; [|congruence].
+    apply existsb_exists. exists dotdot. split; [assumption | reflexivity].
 Qed.
 
-(* what an accepted path looks like, whatever the shape of the ".." test *)
-Lemma sanitise_shape cv d name p :
-  sanitise cv d name = Some p ->
-  p = join2 d name /\ (p = d \/ (safe_under d p /\ dotdot_test cv p = false)).
+Lemma san_ok_parts f : san_ok f = true ->
+  sa_join_dest_first f = true /\ sa_dot_early f = false /\ dd_present (sa_dd f) = true /\ sa_dd_on_destpath f = true /\ sa_prefix_sep f = true.
 Proof.
-  unfold sanitise. destruct (beqb (join2 d name) d) eqn:E.
-  - intros H; inversion H; subst. apply beqb_eq in E. split; [reflexivity | left; exact E].
-  - destruct (negb (dotdot_test cv (join2 d name)) &&
+  unfold san_ok. rewrite !andb_true_iff, negb_true_iff. tauto.
+Qed.
+
+(* what an accepted path looks like, for every record of facts satisfying [san_ok] *)
+Lemma sanitise_shape f d name p : san_ok f = true ->
+  sanitise f d name = Some p ->
+  p = join2 d name /\ (p = d \/ (safe_under d p /\ dd_shape_test (sa_dd f) p = false)).
+Proof.
+  intros Hok. destruct (san_ok_parts f Hok) as (F1 & F2 & F3 & F4 & F5).
+  unfold sanitise, dotdot_test, prefix_test. rewrite F1, F2, F4, F5. simpl.
+  destruct (sa_eq_shortcut f && beqb (join2 d name) d) eqn:E.
+  - intros H; inversion H; subst. apply andb_true_iff in E as [_ E]. apply beqb_eq in E. split; [reflexivity | left; exact E].
+  - destruct (negb (dd_shape_test (sa_dd f) (join2 d name)) &&
               (has_prefix (d ++ sep) (join2 d name) || has_prefix (d ++ [slash]) (join2 d name))) eqn:T; [|discriminate].
     intros H; inversion H; subst. split; [reflexivity|]. right.
     apply andb_true_iff in T as [T1 T2]. apply negb_true_iff in T1.
     assert (HP : has_prefix (d ++ [slash]) (join2 d name) = true) by (unfold sep in T2; destruct (has_prefix (d ++ [slash]) (join2 d name)); auto).
     apply has_prefix_spec in HP as [r Hr]. rewrite <- app_assoc in Hr. simpl in Hr.
     split; [|assumption].
-    exists r. split; [assumption|]. rewrite Hr in T1. eapply dotdot_test_false_split; eauto.
+    exists r. split; [assumption|]. rewrite Hr in T1. eapply dd_shape_false_split; eauto.
 Qed.
 
-Lemma sanitise_within cv d name p : d <> [] -> sanitise cv d name = Some p -> within d p.
+Lemma sanitise_within f d name p : san_ok f = true -> d <> [] -> sanitise f d name = Some p -> within d p.
 Proof.
-  intros Hd H. apply sanitise_shape in H as [_ [->|[H _]]]; [apply within_refl | apply safe_under_within; assumption].
+  intros Hok Hd H. apply sanitise_shape in H as [_ [->|[H _]]]; [apply within_refl | apply safe_under_within; assumption | assumption].
 Qed.
 
-Theorem sanitise_sound_lemma cv dest name p :
-  sanitise cv (clean dest) name = Some p -> within (clean dest) p.
-Proof. apply sanitise_within. apply clean_nonempty. Qed.
+Theorem sanitise_sound_lemma f dest name p : san_ok f = true ->
+  sanitise f (clean dest) name = Some p -> within (clean dest) p.
+Proof. intros Hok. apply sanitise_within; [assumption | apply clean_nonempty]. Qed.
 
-Theorem sanitise_rejects_escape_lemma cv dest name :
-  ~ within (clean dest) (join2 (clean dest) name) -> sanitise cv (clean dest) name = None.
+Theorem sanitise_rejects_escape_lemma f dest name : san_ok f = true ->
+  ~ within (clean dest) (join2 (clean dest) name) -> sanitise f (clean dest) name = None.
 Proof.
-  intros H. destruct (sanitise cv (clean dest) name) as [p|] eqn:E; [|reflexivity].
-  exfalso. apply H. pose proof (sanitise_shape _ _ _ _ E) as [-> _].
+  intros Hok H. destruct (sanitise f (clean dest) name) as [p|] eqn:E; [|reflexivity].
+  exfalso. apply H. pose proof (sanitise_shape _ _ _ _ Hok E) as [-> _].
   eapply sanitise_sound_lemma; eauto.
 Qed.
 
-Lemma sanitise_clean cv d name p : d <> [] -> sanitise cv d name = Some p -> clean p = p.
-Proof. intros Hd H. apply sanitise_shape in H as [-> _]. apply join2_clean. assumption. Qed.
+Lemma sanitise_clean f d name p : san_ok f = true -> d <> [] -> sanitise f d name = Some p -> clean p = p.
+Proof. intros Hok Hd H. apply sanitise_shape in H as [-> _]; [apply join2_clean|]; assumption. Qed.
 
 Lemma cleanform_nonempty d : clean d = d -> d <> [].
 Proof. intros <-. apply clean_nonempty. Qed.
@@ -131,32 +141,42 @@ Qed.
 
 Section Confined.
   Variable transcode : bytes -> option bytes.
-  Variables cv recursive membackend : bool.
+  Variable f : zfacts.
+  Variables recursive membackend : bool.
+
+  Lemma unzip_ok_parts : unzip_ok f = true ->
+    san_ok f = true /\ nested_ok f = true /\ uz_clean_first f = true /\ uz_sanitise_always f = true /\
+    zf_resanitise f = true /\ zf_resanitise_first f = true /\ sc_cut_then_sanitise f = true.
+  Proof. unfold unzip_ok. rewrite !andb_true_iff. tauto. Qed.
 
   Lemma nested_dest_within d name p nd :
-    clean d = d -> sanitise cv d name = Some p -> p <> d -> nested_dest cv p = Some nd ->
+    san_ok f = true -> nested_ok f = true -> uz_clean_first f = true ->
+    clean d = d -> sanitise f d name = Some p -> p <> d -> nested_dest f p = Some nd ->
     within d nd /\ clean nd = nd.
   Proof.
-    intros Hd Hs Hne Hn.
+    intros Hok Hnok Hcf Hd Hs Hne Hn.
     assert (Hd0 : d <> []) by (apply cleanform_nonempty; assumption).
     assert (Hp : clean p = p) by (eapply sanitise_clean; eauto).
     assert (Wp : within d p) by (eapply sanitise_within; eauto).
     assert (Wd : within d (dir p)) by (apply dir_within; assumption).
     assert (Hdir : dir p <> []) by (apply clean_nonempty).
-    unfold nested_dest in Hn. destruct cv eqn:Ecv.
-    - destruct (sanitise true (dir p) (stem p)) as [nd0|] eqn:E; [|discriminate]. inversion Hn; subst.
+    unfold nested_dest, unzip_dest in Hn. rewrite Hcf in Hn. destruct (nz_dest_sanitised f) eqn:Ens.
+    - destruct (sanitise f (dir p) (stem p)) as [nd0|] eqn:E; [|discriminate]. inversion Hn; subst.
       split; [|apply clean_idem]. apply within_clean. eapply within_trans; [exact Wd|].
       eapply sanitise_within; eauto.
     - inversion Hn; subst. split; [|apply clean_idem].
       apply within_clean. eapply within_trans; [exact Wd|]. apply join2_below; [assumption|].
-      apply sanitise_shape in Hs as [_ [->|[_ T]]]; [congruence|]. simpl in T.
+      unfold nested_ok in Hnok. rewrite Ens in Hnok. simpl in Hnok.
+      apply sanitise_shape in Hs as [_ [->|[_ T]]]; [congruence| |assumption].
+      destruct (sa_dd f); try discriminate. simpl in T.
       eapply nodotdot_split_of_part; [|exact T]. apply stem_part. apply cleanform_nonempty. assumption.
   Qed.
 
   Lemma resanitise_within d p q q' :
-    clean d = d -> within d p -> clean p = p -> resanitise cv d p q = Some q' -> within d q' /\ clean q' = q'.
+    san_ok f = true -> zf_resanitise f = true -> sc_cut_then_sanitise f = true ->
+    clean d = d -> within d p -> clean p = p -> resanitise f d p q = Some q' -> within d q' /\ clean q' = q'.
   Proof.
-    intros Hd Wp Hp. unfold resanitise. destruct (beqb q p) eqn:E.
+    intros Hok Hrs Hcs Hd Wp Hp. unfold resanitise. rewrite Hrs, Hcs. simpl. destruct (beqb q p) eqn:E.
     - apply beqb_eq in E. subst. intros H; inversion H; subst. split; assumption.
     - destruct (cut_prefix d q) as [rel|]; [|discriminate]. intros H.
       assert (d <> []) by (apply cleanform_nonempty; assumption).
@@ -164,15 +184,16 @@ Section Confined.
   Qed.
 
   Lemma file_body_ok d name is_arch run_inner cont s fl dl :
-    clean d = d ->
+    unzip_ok f = true -> clean d = d ->
     (forall nd s4, clean nd = nd -> within d nd -> ext_ok nd s4 [] [] (run_inner nd s4)) ->
     (forall s' fl' dl', ext_ok d s' fl' dl' (cont s' fl' dl')) ->
-    ext_ok d s fl dl (file_body transcode cv recursive membackend d name is_arch run_inner cont s fl dl).
+    ext_ok d s fl dl (file_body transcode f recursive membackend d name is_arch run_inner cont s fl dl).
   Proof.
-    intros Hd Hin Hcont.
+    intros Hall Hd Hin Hcont.
+    destruct (unzip_ok_parts Hall) as (Hok & Hnok & Hcf & Hsa & Hrs & Hrf & Hcs).
     assert (Hd0 : d <> []) by (apply cleanform_nonempty; assumption).
-    unfold file_body.
-    destruct (sanitise cv d name) as [p|] eqn:Es; [|apply ext_ok_stop; [apply ext_st_refl | apply ext_l_refl]].
+    unfold file_body, sanitise_entry. rewrite Hsa, Hrf. simpl.
+    destruct (sanitise f d name) as [p|] eqn:Es; [|apply ext_ok_stop; [apply ext_st_refl | apply ext_l_refl]].
     assert (Wp : within d p) by (eapply sanitise_within; eauto).
     assert (Hp : clean p = p) by (eapply sanitise_clean; eauto).
     set (fl1 := if recursive && is_zip_name name then fl else fl ++ [p]).
@@ -182,8 +203,8 @@ Section Confined.
     assert (E1 : ext_st d s s1).
     { eapply mkdir_ext; [|exact Em]. destruct (dir_within_or_above d p Hp Wp) as [H|H]; [left; exact H | right; eexists; split; [reflexivity | exact H]]. }
     destruct (transcode p) as [q|]; [|apply ext_ok_stop; assumption].
-    destruct (resanitise cv d p q) as [q'|] eqn:Er; [|apply ext_ok_stop; assumption].
-    destruct (resanitise_within _ _ _ _ Hd Wp Hp Er) as [Wq Hq].
+    destruct (resanitise f d p q) as [q'|] eqn:Er; [|apply ext_ok_stop; assumption].
+    destruct (resanitise_within _ _ _ _ Hok Hrs Hcs Hd Wp Hp Er) as [Wq Hq].
     assert (E2 : ext_st d s (add_op (OOpenTrunc q') s1)).
     { eapply ext_st_trans; [exact E1|]. apply ext_st_add. left. exact Wq. }
     destruct (mem q' (dirs s1) || below_file q' s1); [apply ext_ok_stop; assumption|].
@@ -197,8 +218,8 @@ Section Confined.
     - apply andb_true_iff in Ez as [Ez _]. apply andb_true_iff in Ez as [_ Ene].
       apply negb_true_iff, beqb_neq in Ene.
       destruct (negb (beqb q' p)); [apply ext_ok_stop; assumption|].
-      destruct (nested_dest cv p) as [nd|] eqn:En; [|apply ext_ok_stop; assumption].
-      destruct (nested_dest_within _ _ _ _ Hd Es Ene En) as [Wn Hn].
+      destruct (nested_dest f p) as [nd|] eqn:En; [|apply ext_ok_stop; assumption].
+      destruct (nested_dest_within _ _ _ _ Hok Hnok Hcf Hd Es Ene En) as [Wn Hn].
       destruct (mkdir nd s3) as [s4|] eqn:Em4; [|apply ext_ok_stop; assumption].
       assert (E4 : ext_st d s3 s4) by (eapply mkdir_ext; [left; exact Wn | exact Em4]).
       specialize (Hin nd s4 Hn Wn). destruct (run_inner nd s4) as [[[s5 nfl] ndl] r]. simpl in Hin.
@@ -217,34 +238,37 @@ Section Confined.
       destruct (is_zip_name name); [|assumption]. eapply ext_l_trans; [exact Efl1 | apply ext_l_snoc; assumption].
   Qed.
 
-  Theorem loop_ok a : forall d s fl dl, clean d = d ->
-    ext_ok d s fl dl (loop transcode cv recursive membackend d a s fl dl).
+  Theorem loop_ok (Hall : unzip_ok f = true) a : forall d s fl dl, clean d = d ->
+    ext_ok d s fl dl (loop transcode f recursive membackend d a s fl dl).
   Proof.
+    destruct (unzip_ok_parts Hall) as (Hok & Hnok & Hcf & Hsa & Hrs & Hrf & Hcs).
     induction a as [|name k rest IH|name inner IHi rest IHr]; intros d s fl dl Hd.
     - simpl. repeat split; [apply ext_st_refl | apply ext_l_refl | apply ext_l_refl].
     - destruct k.
       + simpl. assert (Hd0 : d <> []) by (apply cleanform_nonempty; assumption).
-        destruct (sanitise cv d name) as [p|] eqn:Es; [|apply ext_ok_stop; [apply ext_st_refl | apply ext_l_refl]].
+        unfold sanitise_entry. rewrite Hsa. simpl.
+        destruct (sanitise f d name) as [p|] eqn:Es; [|apply ext_ok_stop; [apply ext_st_refl | apply ext_l_refl]].
         assert (Wp : within d p) by (eapply sanitise_within; eauto).
         set (fl1 := if recursive && is_zip_name name then fl else fl ++ [p]).
         assert (Efl1 : ext_l d fl fl1).
         { unfold fl1. destruct (recursive && is_zip_name name); [apply ext_l_refl | apply ext_l_snoc; assumption]. }
         destruct (mkdir p s) as [s1|] eqn:Em; [|apply ext_ok_stop; [apply ext_st_refl | assumption]].
         eapply ext_ok_cont; [eapply mkdir_ext; [left; exact Wp | exact Em] | exact Efl1 | apply ext_l_snoc; exact Wp | apply IH; assumption].
-      + simpl. apply file_body_ok; [assumption | | intros; apply IH; assumption].
+      + simpl. apply file_body_ok; [assumption | assumption | | intros; apply IH; assumption].
         intros nd s4 _ _. simpl. repeat split; [apply ext_st_refl | apply ext_l_refl | apply ext_l_refl].
-    - simpl. apply file_body_ok; [assumption | | intros; apply IHr; assumption].
+    - simpl. apply file_body_ok; [assumption | assumption | | intros; apply IHr; assumption].
       intros nd s4 Hn _. apply IHi. assumption.
   Qed.
 
-  Theorem unzip_confined_lemma dest a s0 s fl r :
-    unzip transcode cv recursive membackend dest a s0 = (s, fl, r) ->
+  Theorem unzip_confined_lemma dest a s0 s fl r : unzip_ok f = true ->
+    unzip transcode f recursive membackend dest a s0 = (s, fl, r) ->
     (exists new, ops s = new ++ ops s0 /\ Forall (allowed (clean dest)) new) /\ Forall (within (clean dest)) fl.
   Proof.
-    unfold unzip. set (d := clean dest). assert (Hd : clean d = d) by apply clean_idem.
+    intros Hall. destruct (unzip_ok_parts Hall) as (Hok & Hnok & Hcf & Hsa & Hrs & Hrf & Hcs).
+    unfold unzip, unzip_dest. rewrite Hcf. set (d := clean dest). assert (Hd : clean d = d) by apply clean_idem.
     destruct (mkdir d s0) as [s1|] eqn:Em.
-    - pose proof (loop_ok a d s1 [] [] Hd) as H.
-      destruct (loop transcode cv recursive membackend d a s1 [] []) as [[[s2 fl2] dl2] r2]. simpl in H.
+    - pose proof (loop_ok Hall a d s1 [] [] Hd) as H.
+      destruct (loop transcode f recursive membackend d a s1 [] []) as [[[s2 fl2] dl2] r2]. simpl in H.
       destruct H as (E & (nfl & -> & Ffl) & (ndl & -> & Fdl)).
       assert (E1 : ext_st d s0 s1) by (eapply mkdir_ext; [left; apply within_refl | exact Em]).
       destruct r2; intros H; inversion H; subst; (split; [|exact Ffl]).
@@ -266,10 +290,10 @@ Qed.
 
 (* the destination followed by '/' and the raw entry name, resolved lexically (".." steps included), leaves the
    destination => the entry is refused *)
-Theorem sanitise_rejects_raw_escape_lemma cv dest name :
-  ~ within (clean dest) (clean dest ++ slash :: name) -> sanitise cv (clean dest) name = None.
+Theorem sanitise_rejects_raw_escape_lemma f dest name : san_ok f = true ->
+  ~ within (clean dest) (clean dest ++ slash :: name) -> sanitise f (clean dest) name = None.
 Proof.
-  intros H. apply sanitise_rejects_escape_lemma. intro W. apply H.
+  intros Hok H. apply sanitise_rejects_escape_lemma; [assumption|]. intro W. apply H.
   unfold join2 in W. destruct (clean dest) as [|c d'] eqn:E; [exfalso; eapply clean_nonempty; eauto|].
   destruct name; apply within_of_clean; exact W.
 Qed.
